@@ -9,7 +9,7 @@ META = {
     'rule': 'seeded random PDAs (1-3 states, <=6 transitions, epsilon moves, replace and no-op transitions, stack-growing and '
             'non-growing epsilon cycles) x all words <=3 x closure limits {0,1,2,5,40}; verdict compared with the exact '
             'summary-saturation oracle (soundness always; equality when no closure is truncated) and with the Lean model; '
-            'non-trivial = PDA with an epsilon move and a stack operation, word non-empty; distinct by (PDA, word, limit); also PDAs with epsilon loops that push (infinite closures) or pop (drain loops), automata produced by pda_to_accept_on_empty_stack, ambiguous multi-character stack symbols, in-place-edit history; epsilon chains with idle self-loops and back edges whose closure has exactly as many configurations as the limit allows (limits L-1, L, L+1); words of length 10-20 whose acceptance needs an epsilon drain of the whole stack',
+            'non-trivial = PDA with an epsilon move and a stack operation, word non-empty; distinct by (PDA, word, limit); also PDAs with epsilon loops that push (infinite closures) or pop (drain loops), automata produced by pda_to_accept_on_empty_stack, ambiguous multi-character stack symbols, in-place-edit history; epsilon chains with idle self-loops and back edges whose closure has exactly as many configurations as the limit allows (limits L-1, L, L+1); words of length 10-20 whose acceptance needs an epsilon drain of the whole stack; a^n b^n with small limits (stack height above the limit, closures below it)',
     'assumptions': ['PDA.valid (constructor); delta is a dict (unique keys)'],
     'trusted_base': ['Spec: Gamba/Spec/PDA.lean (Move, Run, Accepts, EpsReach)'],
 }
@@ -54,6 +54,17 @@ def cyclic_chain_pda(rng):
     return P, words, sorted({L, L + 1, max(L - 1, 0)})
 
 
+def anbn_pda(rng):
+    """a^n b^n with an epsilon 'guess the middle' move: every closure has at most 3-4 configurations, but the stack grows to n"""
+    eps = rng.choice(['_', 'ε'])
+    delta = [['i', eps, eps, [['p', '$']]], ['p', 'a', eps, [['p', 'x']]], ['p', eps, eps, [['q', eps]]],
+             ['q', 'b', 'x', [['q', eps]]], ['q', eps, '$', [['f', eps]]]]
+    rng.shuffle(delta)
+    P = {'Q': ['i', 'p', 'q', 'f'], 'Sigma': ['a', 'b'], 'Gamma': ['x', '$'], 'delta': delta, 'q0': 'i', 'F': ['f'], 'eps': eps, 'dd': True}
+    ns = rng.sample([3, 4, 5, 6, 8], 3)
+    return P, ['a' * n + 'b' * n for n in ns] + ['a' * ns[0] + 'b' * (ns[0] + 1)], [4, 5, 7]
+
+
 def cases(ctx):
     thorough = ctx.tier == 'thorough'
     rng = ctx.rng
@@ -63,6 +74,10 @@ def cases(ctx):
         P, ws, lims = cyclic_chain_pda(rng)
         if not thorough or ctx.mine(i):
             yield {'P': P, 'words': ws, 'limits': lims}
+    for i in range(6 if not thorough else 60):          # the stack grows far beyond the limit while every closure stays tiny
+        P, ws, lims = anbn_pda(rng)
+        if not thorough or ctx.mine(i):
+            yield {'P': P, 'words': ws, 'limits': lims, 'no_edit': True}
     for i in range(10 if not thorough else 100):        # long words: epsilon drain of a stack of 10-20 symbols
         P, ws = gen.deep_drain_pda(rng)
         if not thorough or ctx.mine(i):
